@@ -272,6 +272,10 @@ pub enum PAct {
     Reset,
     /// reset a copy and compare with a new scanner
     ResetProbe,
+    /// many resets in one step (index into `storms`): counters used to implement a lazy reset wrap
+    ResetStorm(u8),
+    /// a non-contributing message on every one of the 16 channels
+    TouchAll,
 }
 
 pub struct PlainSys<O: PlainOracle> {
@@ -286,6 +290,8 @@ pub struct PlainSys<O: PlainOracle> {
     pub with_reset: bool,
     pub deep_probes: bool,
     pub followup_values: Vec<u8>,
+    /// reset storms offered as single actions: (number of resets, with traffic on another channel in between)
+    pub storms: Vec<(u32, bool)>,
     /// controller numbers for which some explored transition changed the state or reported
     pub reacted: Vec<AtomicBool>,
 }
@@ -315,6 +321,7 @@ impl<O: PlainOracle> PlainSys<O> {
             with_reset: true,
             deep_probes: true,
             followup_values: vec![1],
+            storms: Vec::new(),
             reacted: (0..128).map(|_| AtomicBool::new(false)).collect(),
         }
     }
@@ -461,6 +468,36 @@ impl<O: PlainOracle> PlainSys<O> {
                     violations: Vec::new(),
                 }
             }
+            PAct::ResetStorm(i) => {
+                let (n, traffic) = self.storms[*i as usize];
+                let mut sc = s.sc;
+                let other = raw(0x90 | ((self.ch + 1) % 16), 1, 1);
+                let mut v = Vec::new();
+                for _ in 0..n {
+                    if traffic {
+                        let o = sc.feed_msg(&other);
+                        if o[0].is_some() && v.is_empty() && self.report.oracle {
+                            v.push(self.vio("unjustified-report", "reset-storm", || format!("a note-on on another channel reported {:?} during a reset storm", o)));
+                        }
+                    }
+                    sc.reset_all();
+                }
+                Step { next: Some(PState { sc, m: self.oracle.init() }), obs: 0, violations: v }
+            }
+            PAct::TouchAll => {
+                let mut sc = s.sc;
+                let mut v = Vec::new();
+                for c in 0..16u8 {
+                    let extra = if <O::Sc as Scanner>::contributes(70) { 120 } else { 70 };
+                    for m in [raw(0x90 | c, 1, 1), raw(0xB0 | c, extra, 1)] {
+                        let o = sc.feed_msg(&m);
+                        if o[0].is_some() && v.is_empty() && (self.report.oracle || self.report.transparency) {
+                            v.push(self.vio("unjustified-report", "touch-all", || format!("a non-contributing message on channel {} reported {:?}", c, o)));
+                        }
+                    }
+                }
+                Step { next: Some(PState { sc, m: s.m.clone() }), obs: 0, violations: v }
+            }
             PAct::ResetProbe => {
                 let mut v = Vec::new();
                 if self.report.reset {
@@ -506,7 +543,11 @@ impl<O: PlainOracle> System for PlainSys<O> {
         if self.with_reset {
             out.push(PAct::Reset);
             out.push(PAct::ResetProbe);
+            for i in 0..self.storms.len() {
+                out.push(PAct::ResetStorm(i as u8));
+            }
         }
+        out.push(PAct::TouchAll);
         for i in 0..self.others.len() {
             out.push(PAct::Other(i as u32));
         }
@@ -536,10 +577,10 @@ impl<O: PlainOracle> System for PlainSys<O> {
         Some(debug_fp(&s.sc, 0, 0))
     }
     fn n_classes(&self) -> usize {
-        6
+        8
     }
     fn class_name(&self, i: usize) -> String {
-        ["feed-contributing-cc", "feed-cc-probe(concretisation)", "feed-must-be-transparent", "reset", "reset-probe", "feed-non-contributing(expanded)"][i].to_string()
+        ["feed-contributing-cc", "feed-cc-probe(concretisation)", "feed-must-be-transparent", "reset", "reset-probe", "feed-non-contributing(expanded)", "reset-storm", "touch-all-16-channels"][i].to_string()
     }
     fn class_of(&self, a: &PAct) -> usize {
         match a {
@@ -549,6 +590,8 @@ impl<O: PlainOracle> System for PlainSys<O> {
             PAct::Reset => 3,
             PAct::ResetProbe => 4,
             PAct::Other(..) => 5,
+            PAct::ResetStorm(..) => 6,
+            PAct::TouchAll => 7,
         }
     }
     fn render(&self, a: &PAct) -> String {
@@ -565,6 +608,8 @@ impl<O: PlainOracle> System for PlainSys<O> {
             }
             PAct::Reset => "reset".to_string(),
             PAct::ResetProbe => "resetprobe".to_string(),
+            PAct::ResetStorm(i) => format!("resetstorm:{}:{}", self.storms[*i as usize].0, self.storms[*i as usize].1),
+            PAct::TouchAll => "touchall".to_string(),
         }
     }
     fn rust_preamble(&self) -> String {
@@ -582,6 +627,15 @@ impl<O: PlainOracle> System for PlainSys<O> {
                 format!("println!(\"{{:?}}\", scanner.feed(&helgoboss_midi::test_util::short({}, {}, {})));", s, a, b)
             }
             PAct::Reset | PAct::ResetProbe => "scanner.reset();".to_string(),
+            PAct::ResetStorm(i) => {
+                let (n, traffic) = self.storms[*i as usize];
+                if traffic {
+                    format!("for _ in 0..{} {{ scanner.feed(&helgoboss_midi::test_util::note_on({}, 1, 1)); scanner.reset(); }}", n, (self.ch + 1) % 16)
+                } else {
+                    format!("for _ in 0..{} {{ scanner.reset(); }}", n)
+                }
+            }
+            PAct::TouchAll => "for c in 0..16 { scanner.feed(&helgoboss_midi::test_util::note_on(c, 1, 1)); }".to_string(),
         }
     }
 }
